@@ -127,7 +127,9 @@ class InMemoryObjectStore(BaseObjectStore):
                 f'Name "{name}" not in {self._cim_object_type} object store')
 
         # Replace the existing object with a copy of the input object
-        self._data[name] = (cim_object)
+        # Replace with deepcopy to completely isolate the copy in the
+        # repository, as in create().
+        self._data[name] = deepcopy(cim_object)
 
     def delete(self, name):
         if name in self._data:
